@@ -514,6 +514,8 @@ def rule_x(repo, run):
     # name scopes (F_name_scope / C_name_scope) follow the namespace's own flatten options (C14.R8)
     from checks import c14
     import_rules(run, R, c14, repo, {"C14.R8"}, only=lambda c: c.startswith("ast."))
+    # template suffixes and helper names are built from flat_name: distinct C++ types have distinct flat names (C05.R17)
+    import_rules(run, R, c05, repo, {"C05.R17"})
 
 
 def run(repo, run, tier):
